@@ -538,10 +538,10 @@ def tail (c : Cfg) (t : Term) : List Act :=
   | .streamStdin => [.ret true, .user, .close ⟨1, .w⟩] ++ dropVec c [⟨1, .w⟩] noneWaited c.n
   | .capture =>
     if c.ioFails then
-      [.io] ++ dropVec c (commEnds c t) noneWaited c.n ++ (commEnds c t).map Act.close ++ [.ret false]
+      [.io] ++ (commEnds c t).map Act.close ++ dropVec c (commEnds c t) noneWaited c.n ++ [.ret false]
     else
-    [.io] ++ (commWriteEnds c).map Act.close ++ [.waitRet last] ++
-      dropVec c (commEnds c t) (fun j => j = last) c.n ++ (commReadEnds c t).map Act.close ++ [.ret true]
+    [.io] ++ (commEnds c t).map Act.close ++ [.waitRet last] ++
+      dropVec c (commEnds c t) (fun j => j = last) c.n ++ [.ret true]
   | .communicate =>
     dropVec c (commEnds c t) noneWaited c.n ++ [.ret true, .user] ++ (commEnds c t).map Act.close
 
@@ -1015,10 +1015,10 @@ theorem ok_final_empty (c : Cfg) (t : Term) (h : AllStart c) (hn : 0 < c.n) :
       | none => simp [hHe]
       | some b =>
         rcases hcases e (by simp [hHe]) with ⟨rfl, hi⟩ | ⟨rfl, ho⟩ | ⟨rfl, hE⟩
-        · simp [commWriteEnds, hi]
-        · simp [commReadEnds, ho]
+        · simp [commEnds, commWriteEnds, hi]
+        · simp [commEnds, commReadEnds, ho]
         · have : (capPipe c .capture || hasErrPipe c) = true := by rcases hE with hE | hE <;> simp [hE]
-          simp [commReadEnds, this]
+          simp [commEnds, commReadEnds, this]
   | communicate =>
     simp only [tail, heldAfter_append, heldAfter_closes, heldAfter_cons, heldAfter_nil, stepHeld, dropVec_held]
     funext e
